@@ -1,5 +1,6 @@
 import Deb822Verif.Model.Text
 import Deb822Verif.Model.Enum
+import Deb822Verif.Model.Outcome
 import Deb822Verif.Gen.Enums
 /-
   Hand models of the typed field values that are records / keyword-or-text values (property C18).
@@ -282,6 +283,25 @@ def Vcs.toField : Vcs → Str × Str
   | .hg u => (nHg, u)
   | .svn u => (nSvn, u)
   | .cvs r m => (nCvs, match m with | some m => r ++ ' ' :: m | none => r)
+
+/-- `Vcs::subpath` (vcs.rs:200-206) -/
+def Vcs.subpath : Vcs → Option Str
+  | .git _ _ p => p
+  | .bzr _ p => p
+  | _ => none
+
+def branchUrlMark : Str := ",branch=".toList
+
+/-- `Vcs::to_branch_url` (vcs.rs:209-225): `format!("{},branch={}", repo_url, branch.as_ref().unwrap())`
+    for Git — the `unwrap` panics when there is no branch —, the repository URL for Bzr / Hg / Svn,
+    `None` for Cvs. The subpath is not used. -/
+def Vcs.toBranchUrl : Vcs → Outcome (Option Str)
+  | .git u (some b) _ => .ok (some (u ++ branchUrlMark ++ b))
+  | .git _ none _ => .panic "vcs.rs:216 branch.as_ref().unwrap()"
+  | .bzr u _ => .ok (some u)
+  | .hg u => .ok (some u)
+  | .svn u => .ok (some u)
+  | .cvs _ _ => .ok none
 
 /-! ## `parse_identity` (the text form `Name <email>` has no printer in the crate; `identityText`
     is the conventional form the harness builds) -/
